@@ -23,7 +23,6 @@ import (
 	styp "github.com/google/gce-tcb-verifier/sign/types"
 	"github.com/google/gce-tcb-verifier/tdx"
 	sgpb "github.com/google/go-sev-guest/proto/sevsnp"
-	"github.com/google/uuid"
 	"google.golang.org/protobuf/proto"
 	"pgregory.net/rapid"
 
@@ -108,14 +107,18 @@ type request struct {
 	vmsas     uint32
 	genoa     bool
 	svn       uint32
-	familyID  string
+	familyID  string // the text the request carries ("" = not given)
 	imageID   string
+	family    idChoice // what familyID spells (value class, spelling, the 16 bytes)
+	imageC    idChoice
+	svsmClass string
 	badID     string
 	svsm      []byte
 	shapes    []shape
 	early     bool
 	tdxSvn    uint32
 	clSpec    uint64
+	clEdge    bool
 	commit    []byte
 	timestamp time.Time
 }
@@ -138,27 +141,48 @@ func genRequest(t *rapid.T) request {
 	}
 	r.vmsas = rapid.SampledFrom([]uint32{0, 0, 1, 2, 3, 8, 240}).Draw(t, "vmsas")
 	r.genoa = rapid.Bool().Draw(t, "genoa")
-	r.svn = rapid.Uint32Range(0, 9).Draw(t, "svn")
-	r.tdxSvn = rapid.Uint32Range(0, 9).Draw(t, "tdxSvn")
+	r.svn = genSvn(t, "svn")
+	r.tdxSvn = genSvn(t, "tdxSvn")
+	// An id is either not given (the documented default applies) or ANY well-formed UUID: the value is
+	// drawn from the edges of the 128-bit space as well as from its middle, and written in one of the
+	// spellings of a GUID.
 	switch rapid.IntRange(0, 5).Draw(t, "familyKind") {
 	case 0:
-		r.familyID = ""
-	case 1:
-		r.familyID = "aabbccdd-0011-2233-4455-66778899aabb"
+		r.family = idChoice{value: "not-given", spelling: "none"}
+	case 1, 2:
+		r.family = idChoice{value: "gce-family-id", spelling: "canonical-lower", text: gceFamilyID, want: gceFamilyBytes}
 	default:
-		r.familyID = gceFamilyID
+		r.family = genID(t, "family", nil)
 	}
 	switch rapid.IntRange(0, 3).Draw(t, "imageKind") {
 	case 0:
-		r.imageID = ""
+		r.imageC = idChoice{value: "not-given", spelling: "none"}
 	default:
-		r.imageID = uuid.UUID(*(*[16]byte)(rapid.SliceOfN(rapid.Byte(), 16, 16).Draw(t, "imageID"))).String()
+		var other *[16]byte
+		if r.family.text != "" {
+			other = &r.family.want
+		}
+		r.imageC = genID(t, "image", other)
 	}
+	r.familyID, r.imageID = r.family.text, r.imageC.text
 	if rapid.IntRange(0, 9).Draw(t, "badID") == 0 {
 		r.badID = rapid.SampledFrom([]string{"family", "image"}).Draw(t, "which")
 	}
+	r.svsmClass = "none"
 	if rapid.IntRange(0, 2).Draw(t, "svsm") == 0 {
-		r.svsm = rapid.SliceOfN(rapid.Byte(), 48, 48).Draw(t, "svsmv")
+		// any 48-byte value: mostly arbitrary, now and then an edge of the value space
+		r.svsmClass = rapid.SampledFrom([]string{"arbitrary", "arbitrary", "arbitrary", "arbitrary", "all-zero", "all-ones", "zero-but-last-byte"}).Draw(t, "svsmClass")
+		switch r.svsmClass {
+		case "arbitrary":
+			r.svsm = rapid.SliceOfN(rapid.Byte(), 48, 48).Draw(t, "svsmv")
+		case "all-zero":
+			r.svsm = make([]byte, 48)
+		case "all-ones":
+			r.svsm = bytes.Repeat([]byte{0xff}, 48)
+		case "zero-but-last-byte":
+			r.svsm = make([]byte, 48)
+			r.svsm[47] = byte(rapid.IntRange(1, 255).Draw(t, "svsmLast"))
+		}
 	}
 	// 0-3 shapes usually; one request in six asks for up to all six (the production request)
 	maxShapes := 3
@@ -171,7 +195,11 @@ func genRequest(t *rapid.T) request {
 	}
 	r.early = rapid.Bool().Draw(t, "early")
 	if rapid.Bool().Draw(t, "cl") {
-		r.clSpec = rapid.Uint64Range(1, 1<<40).Draw(t, "clSpec")
+		if rapid.IntRange(0, 7).Draw(t, "clEdge") == 0 {
+			r.clSpec, r.clEdge = rapid.SampledFrom([]uint64{1<<31 - 1, 1 << 32, 1<<63 - 1, 1 << 63, 1<<64 - 1}).Draw(t, "clSpecEdge"), true
+		} else {
+			r.clSpec = rapid.Uint64Range(1, 1<<40).Draw(t, "clSpec")
+		}
 	}
 	if r.clSpec == 0 || rapid.Bool().Draw(t, "commit") {
 		r.commit = rapid.SliceOfN(rapid.Byte(), 20, 20).Draw(t, "commitv")
@@ -275,18 +303,19 @@ func checkGolden(g *epb.VMGoldenMeasurement, r request, signed bool, primary str
 		if s.Svn != r.svn {
 			return "C06/snp-svn-differs", fmt.Sprintf("svn %d, requested %d", s.Svn, r.svn)
 		}
-		wantFam := r.familyID
-		if wantFam == "" {
-			wantFam = gceFamilyID
+		// the id the document must carry is the 16 bytes the request's text spells (known to the generator,
+		// which wrote the text from the bytes: no parser is involved on the oracle's side)
+		fam, wantFam := gceFamilyBytes, gceFamilyID+" (default: none given)"
+		if r.familyID != "" {
+			fam, wantFam = r.family.want, fmt.Sprintf("%q (%s, %s)", r.familyID, r.family.value, r.family.spelling)
 		}
-		fam := uuid.MustParse(wantFam)
 		if !bytes.Equal(s.FamilyId, fam[:]) {
-			return "C06/snp-family-id-differs", fmt.Sprintf("family id %x, want %s", s.FamilyId, wantFam)
+			return "C06/snp-family-id-differs", fmt.Sprintf("family id %x, requested %s = %x", s.FamilyId, wantFam, fam)
 		}
 		if r.imageID != "" {
-			img := uuid.MustParse(r.imageID)
+			img := r.imageC.want
 			if !bytes.Equal(s.ImageId, img[:]) {
-				return "C06/snp-image-id-differs", fmt.Sprintf("image id %x, requested %s", s.ImageId, r.imageID)
+				return "C06/snp-image-id-differs", fmt.Sprintf("image id %x, requested %q (%s, %s) = %x", s.ImageId, r.imageID, r.imageC.value, r.imageC.spelling, img)
 			}
 		} else {
 			// no image id requested: the implementation supplies one ("if empty, then random"). It must be a
@@ -412,7 +441,9 @@ func keysOf(m map[uint32][]byte) []uint32 {
 	return ks
 }
 
-const ruleText = "generated firmware (1-8 pages, one in eight up to 48 pages, SEV+TDX metadata) x request {technology subset, VMSA count 0=all|1|2|3|8|240, Milan|Genoa, SVN, family id empty/default/custom/malformed, image id empty/given/malformed, SVSM value, 0-3 (one request in six: up to all 6) of the six machine shapes with/without early accept, changelist and/or commit, timestamp with nanoseconds, primary key name}; oracle on the message returned by endorse.GoldenMeasurement and on the payload inside endorse.SignDoc's result: digest == sha384(image); SNP measurement keys == requested count or exactly the 15 supported counts, each value == independent reference launch digest for that count and product, none all-zero; TDX rows (judged as a collection grouped by (ram_gib, early_accept), row order is not part of the statement) == one per shape (+ early accept) plus the default row, each MRTD == independent reference for the shape's RAM banks and mode, ram_gib == shape size; SVN, family id (default when empty), image id (given, or generated: 16 bytes, not all-zero, never the same value for two different images), SVSM, provenance, timestamp, certificate and bundle of the current primary; a signer call carries sha256(payload) under the primary key name; malformed ids => error (counted, not non-trivial); a rejected unsupported VMSA count (3) is inconclusive; the policy word is not judged; non-trivial = >=2 configurations or both technologies; distinct = (request shape, image pages)"
+const idRuleText = "ids: not given (1 in 6 family, 1 in 4 image), the GCE family id as written in the documentation (family, 2 in 6), else ANY well-formed UUID = value class {arbitrary 16 bytes x4, nil UUID (all zero) x2, all ones, ...0001, a single set bit, upper half zero, lower half zero, the GCE default family id, a fixed custom id, the image id equal to the request's own family id} x spelling {8-4-4-4-12 lower case x4, upper case, urn:uuid: prefix, {braced}, 32 bare hex digits}; the text is written from the drawn bytes and the oracle compares the document's id with those bytes (no parser on the oracle's side): a well-formed id is never a way of saying 'not given'; SNP/TDX SVN 0..9, one in eight an edge of the 32-bit field {0, 2^31-1, 2^31, 2^32-1}; changelist 1..2^40, one in eight an integer edge {2^31-1, 2^32, 2^63-1, 2^63, 2^64-1}; SVSM value absent (2 in 3) or 48 bytes {arbitrary x4, all zero, all ones, zero but the last byte}; refusing (error, nothing signed) an id in a notation other than 8-4-4-4-12, the nil UUID or an all-zero SVSM value is counted inconclusive, every other error is a violation; classes family-id/value=, image-id/value=, */spelling=, svsm/value=, snp-svn>9, changelist/integer-edge count the accepted and fully compared requests"
+
+const ruleText = "generated firmware (1-8 pages, one in eight up to 48 pages, SEV+TDX metadata) x request {technology subset, VMSA count 0=all|1|2|3|8|240, Milan|Genoa, SVN, family id not given/default/any UUID/malformed, image id not given/any UUID/malformed, SVSM value, 0-3 (one request in six: up to all 6) of the six machine shapes with/without early accept, changelist and/or commit, timestamp with nanoseconds, primary key name}; " + idRuleText + "; oracle on the message returned by endorse.GoldenMeasurement and on the payload inside endorse.SignDoc's result: digest == sha384(image); SNP measurement keys == requested count or exactly the 15 supported counts, each value == independent reference launch digest for that count and product, none all-zero; TDX rows (judged as a collection grouped by (ram_gib, early_accept), row order is not part of the statement) == one per shape (+ early accept) plus the default row, each MRTD == independent reference for the shape's RAM banks and mode, ram_gib == shape size; SVN, family id (the requested 16 bytes; the GCE default only when none is given), image id (the requested 16 bytes, or when none is given a generated one: 16 bytes, not all-zero, never the same value for two different images), SVSM, provenance, timestamp, certificate and bundle of the current primary; a signer call carries sha256(payload) under the primary key name; malformed ids => error (counted, not non-trivial); a rejected unsupported VMSA count (3) is inconclusive; the policy word is not judged; non-trivial = >=2 configurations or both technologies; distinct = (request shape, image pages)"
 
 func TestSignedDocumentDescribesImage(t *testing.T) {
 	const name = "document-vs-image"
@@ -424,6 +455,9 @@ func TestSignedDocumentDescribesImage(t *testing.T) {
 		signer := &recSigner{}
 		ctx := r.context(primary, signer)
 		desc := fmt.Sprintf("sev=%v tdx=%v vmsas=%d genoa=%v shapes=%v early=%v family=%q image=%q bad=%q pages=%d", r.sev, r.tdx, r.vmsas, r.genoa, r.shapes, r.early, r.familyID, r.imageID, r.badID, len(r.image)/4096)
+		if r.svn > 9 || r.tdxSvn > 9 || r.svsmClass != "none" && r.svsmClass != "arbitrary" || r.clEdge {
+			desc += fmt.Sprintf(" svn=%d tdx-svn=%d svsm=%s clspec=%d", r.svn, r.tdxSvn, r.svsmClass, r.clSpec)
+		}
 		var g *epb.VMGoldenMeasurement
 		var err error
 		var pan any
@@ -451,6 +485,10 @@ func TestSignedDocumentDescribesImage(t *testing.T) {
 		if err != nil && r.sev && r.vmsas != 0 && !supported(r.vmsas) {
 			// refusing a VMSA count that GCE does not sell is a legitimate answer: nothing gets signed
 			ev.Class(name, "inconclusive/unsupported-count-rejected")
+			return
+		}
+		if why := r.mayBeRefused(); err != nil && why != "" {
+			ev.Class(name, "inconclusive/"+why+"-rejected")
 			return
 		}
 		if err != nil {
@@ -502,6 +540,10 @@ func TestSignedDocumentDescribesImage(t *testing.T) {
 			if r.early {
 				configs += len(r.shapes)
 			}
+		}
+		countRequestClasses(name, r, ev.Class)
+		if r.clEdge {
+			ev.Class(name, "changelist/integer-edge")
 		}
 		ev.Case(name, configs >= 2, fmt.Sprintf("%v|%v|%d|%v|%d|%v|%d", r.sev, r.tdx, r.vmsas, r.genoa, len(r.shapes), r.early, len(r.image)/4096), fmt.Sprintf("sev=%v/tdx=%v/configs=%s", r.sev, r.tdx, bucket(configs)), func() any {
 			return map[string]any{"request": desc, "configurations": configs}
